@@ -1486,9 +1486,9 @@ func (g *gstate) genQuery() jquery {
 func (g *gstate) genOp(f *flags) *jop {
 	for {
 		var op *jop
-		w := g.r.Intn(103)
-		if w >= 78 && w < 86 && g.r.Chance(0.4) {
-			w = 86 // a cleave instead of a merge (falls back to another op when no body has two supervoxels)
+		w := g.r.Intn(107)
+		if w >= 82 && w < 90 && g.r.Chance(0.4) {
+			w = 90 // a cleave instead of a merge (falls back to another op when no body has two supervoxels)
 		}
 		switch {
 		case w < 25:
@@ -1499,19 +1499,19 @@ func (g *gstate) genOp(f *flags) *jop {
 			}
 		case w < 40:
 			op = g.genOverwrite(f)
-		case w < 48:
+		case w < 52:
 			op = g.genLink(f)
-		case w < 58:
+		case w < 62:
 			op = g.genDelete(f)
-		case w < 73:
+		case w < 77:
 			op = g.genMove(f)
-		case w < 78:
+		case w < 82:
 			op = g.genReload()
-		case w < 86:
+		case w < 90:
 			op = g.genMerge()
-		case w < 93:
+		case w < 97:
 			op = g.genCleave()
-		case w < 98:
+		case w < 102:
 			op = g.genMutate()
 		default:
 			op = g.genIngest()
@@ -1682,6 +1682,17 @@ func corpus() []jcase {
 				{Q: "blocks", Off: pos{0, 0, 0}, Size: pos{16, 16, 16}},
 			}},
 		}},
+		// (iii) mutual relationship across blocks; the moved element goes to negative coordinates on
+		// another body, its partner is then moved within its block, then the first one is deleted
+		{Paint0: pt, Ops: []jop{
+			{Op: "post", Elems: []elem{
+				{Pos: pos{25, 1, 1}, Kind: 2, Rels: []rel{{Rel: 2, To: pos{12, 15, 0}}}},
+				{Pos: pos{12, 15, 0}, Kind: 1, Tags: []int{3}, Rels: []rel{{Rel: 1, To: pos{25, 1, 1}}}},
+				{Pos: pos{13, 15, 0}, Kind: 4}}},
+			{Op: "move", P: pos{25, 1, 1}, Q: pos{-1, 15, 15}},
+			{Op: "move", P: pos{12, 15, 0}, Q: pos{15, 0, 15}},
+			{Op: "delete", P: pos{-1, 15, 15}, Queries: []jquery{{Q: "region", Off: all, Size: pos{40, 24, 24}}}},
+		}},
 	}
 }
 
@@ -1705,7 +1716,7 @@ func main() {
 		}
 		runStored(run, "history", jc)
 	} else {
-		n := 12
+		n := 13
 		if o.Thorough() {
 			n = 120
 		}
@@ -1717,7 +1728,7 @@ func main() {
 				runStored(run, "history", jc)
 			}
 		}
-		for i := 2; i < n; i++ {
+		for i := len(corpus()); i < n; i++ {
 			runRandom(run, rng, 13+rng.Intn(5))
 		}
 	}
